@@ -11,10 +11,12 @@ import (
 // space, 2/3/4-byte runes, case pairs outside ASCII, the Kelvin sign (lower-cases to
 // ASCII k) and U+FFFD.
 var Alphabet = []rune{'a', 'b', 'c', 'A', 'B', 'k', 'K', '0', '1', '_', '-', ']', '\\', '"', '\'', '^', ' ', '\n', '\t',
-	'é', 'É', 'ß', '日', 'K', '😀', '�'}
+	'é', 'É', 'ß', '日', 'K', '😀', '�', 'Ⱥ', 'ⱥ'}
 
 // SafeAlphabet leaves out the runes that only matter to the front-end.
-var SafeAlphabet = []rune{'a', 'b', 'c', 'A', 'B', 'k', '0', '1', '_', ' ', '\n', 'é', 'É', '日', '😀'}
+// (Ⱥ U+023A is two bytes long, its lower case ⱥ U+2C65 three; the Kelvin sign is three bytes long,
+// its lower case is the ASCII k)
+var SafeAlphabet = []rune{'a', 'b', 'c', 'A', 'B', 'k', '0', '1', '_', ' ', '\n', 'é', 'É', '日', '😀', 'Ⱥ', 'ⱥ', '\u212a'}
 
 // UClassPool are the Unicode classes drawn by the ordinary profiles.
 var UClassPool = []string{"L", "Lu", "Ll", "N", "Nd", "P", "Z", "S", "M", "C", "Latin", "Greek", "Han", "Cyrillic", "White_Space"}
@@ -323,6 +325,9 @@ func (c *gen) expr(depth int, guarded bool) (*Expr, bool) {
 	if c.cfg.Code && !c.noCode && c.inRecover == 0 && depth < c.cfg.MaxDepth && c.chance(6, "shadowbait") {
 		return c.shadowBait(), false
 	}
+	if c.cfg.Code && !c.noCode && c.inRecover == 0 && depth < c.cfg.MaxDepth && c.chance(5, "nillabelbait") {
+		return c.nilLabelBait(), false
+	}
 	if c.cfg.StateBlocks && !c.noCode && c.chance(6, "statepredbait") {
 		return c.statePredBait(), true
 	}
@@ -495,6 +500,50 @@ func (c *gen) shadowBait() *Expr {
 		seq.Sub = append(seq.Sub, c.consuming())
 	}
 	return &Expr{K: KAction, ID: c.id(), Sub: []*Expr{seq}}
+}
+
+// nilLabelBait draws  ( l:t1 t2 {A} / l:NIL t1' {B} )  where NIL is an expression whose value
+// is nil or empty ( t3? , &t , !t , t3* ) and t1' starts like t1: on "t1 + something else" the
+// first alternative binds l and fails behind it, the second one binds the same name to nil -
+// and its block must see nil, not what the abandoned alternative left behind.
+func (c *gen) nilLabelBait() *Expr {
+	t1 := c.consuming()
+	t2 := c.consuming()
+	var nilE *Expr
+	switch c.intn(0, 3, "nilkind") {
+	case 0:
+		nilE = &Expr{K: KOpt, Sub: []*Expr{c.consuming()}}
+	case 1:
+		nilE = &Expr{K: KStar, Sub: []*Expr{c.consuming()}}
+	case 2:
+		nilE = &Expr{K: KNot, Sub: []*Expr{cloneTerminal(t2)}}
+	default:
+		nilE = &Expr{K: KAnd, Sub: []*Expr{cloneTerminal(t1)}}
+	}
+	if !c.cfg.Preds && (nilE.K == KNot || nilE.K == KAnd) {
+		nilE = &Expr{K: KOpt, Sub: []*Expr{c.consuming()}}
+	}
+	save := c.labelN
+	c.labelN = 0
+	name := c.label()
+	c.labelN = save
+	a := &Expr{K: KAction, ID: c.id(), Sub: []*Expr{{K: KSeq, Sub: []*Expr{{K: KLabel, Name: name, Sub: []*Expr{t1}}, t2}}}}
+	b := &Expr{K: KAction, ID: c.id(), Sub: []*Expr{{K: KSeq, Sub: []*Expr{{K: KLabel, Name: name, Sub: []*Expr{nilE}}, cloneTerminal(t1)}}}}
+	return &Expr{K: KChoice, Sub: []*Expr{a, b}}
+}
+
+// cloneTerminal copies a literal, class or any matcher (no node is shared between two places
+// of a grammar).
+func cloneTerminal(e *Expr) *Expr {
+	x := *e
+	x.Val = append([]byte(nil), e.Val...)
+	x.Chars = append([]rune(nil), e.Chars...)
+	x.Ranges = append([]rune(nil), e.Ranges...)
+	x.UClasses = append([]string(nil), e.UClasses...)
+	if e.Val == nil {
+		x.Val = nil
+	}
+	return &x
 }
 
 // statePredBait draws a predicate directly under ? (no sequence in between) whose operand
